@@ -10,6 +10,7 @@ import tempfile
 import common
 from common import sx
 from e2e import canon, try_, _short
+import c15_shared
 
 
 def lru_sweep(run, model, L):
@@ -109,15 +110,27 @@ def run(run):
     ]
     run.rule = ("exhaustive: all LRU operation sequences (contains/getitem/setitem over 3 keys, capacity 1-3) up to length L vs the proved model; "
                 "random session histories (build / optimize / compute / divisions / discard+gc / injected task failure / dataset rewrite) over a pool of 26+13 queries (> every cache capacity): "
-                "every observation compared with the same query alone in a fresh interpreter; non-trivial = LRU sequence with >= 2 writes / history step")
+                "every observation compared with the same query alone in a fresh interpreter; "
+                "sessions over queries that SHARE sub-expressions (c15_shared.py: source x view of the source x random interleaving of len/size/count/optimize/compute/"
+                "failure/gc/rebuild steps with observations of concat / alignment / length targets built from the same objects), every observation (plan fingerprint, "
+                "divisions, dtypes, result) compared with the target alone in a fresh interpreter on data with a salt of its own; "
+                "non-trivial = LRU sequence with >= 2 writes / history step / observation after at least one earlier action of its session")
     run.proofs("PropC15.v")
     quick = run.tier == "quick"
     m = common.Model()
     lru_sweep(run, m, 4 if quick else 5)
     # baselines in fresh interpreters
     ctx = mp.get_context("spawn")
+    hdir = os.path.join(common.VERIF, "harness")
+    sessions = c15_shared.plan_sessions(run.rng, run.tier)
     with ctx.Pool(12) as pool:
-        base = dict(pool.map(_alone, [(nm, os.path.join(common.VERIF, "harness"), common.REPO) for nm in POOL]))
+        r_base = pool.map_async(_alone, [(nm, hdir, common.REPO) for nm in POOL])
+        r_shared = pool.map_async(c15_shared.baseline_batch, [(chunk, hdir) for chunk in c15_shared.chunks(c15_shared.needed_baselines(sessions), 24)], chunksize=1)
+        base = dict(r_base.get())
+        import time as _t
+        t_wait = _t.time()
+        shared_base = dict(kv for part in r_shared.get() for kv in part)
+        t_wait = _t.time() - t_wait
     pdf, other = catalogue.tables()
     Q = catalogue.queries(rt.dx, pdf, other)
     rng = random.Random(run.seed)
@@ -161,6 +174,8 @@ def run(run):
                                   {"kind": "history", "query": nm, "step": step, "what": what, "seed": run.seed})
                     break
     run.section("histories", steps=steps, observations=nobs, pool=len(POOL), eviction_queries=len(evict), baselines_failed=[k for k, v in base.items() if "error" in v])
+    # sessions over queries that share sub-expressions
+    c15_shared.run_sessions(run, rt.dx, sessions, shared_base, extra_wait_for_baselines_s=round(t_wait, 1))
     # dataset rewrite
     tmp = tempfile.mkdtemp(prefix="c15_", dir=common.BUILD)
     try:
@@ -230,3 +245,20 @@ def run(run):
     finally:
         import shutil
         shutil.rmtree(tmp, ignore_errors=True)
+
+
+def replay(path):
+    """Replays of the shared-sub-expression sessions (the other kinds are replayed by a run with the recorded seed)."""
+    import rt
+    with open(path) as f:
+        d = json.load(f)
+    case = d.get("case") or {}
+    if case.get("kind") != "shared-subexpression":
+        print("C15: replay by `VERIF_SEED=%s ./check C15 --tier %s`" % (d.get("seed"), d.get("tier")))
+        return 2
+    diff = c15_shared.replay_case(rt.dx, case)
+    if diff is None:
+        print("C15 replay: target %s after %s agrees with the target alone" % (case["target"], case["history"]))
+        return 0
+    print("C15 replay: after %s the %s of target %s is %s; alone it is %s" % (case["history"], diff[0], case["target"], _short(diff[1]), _short(diff[2])))
+    return 1
